@@ -479,19 +479,9 @@ func (s *SwapV2) Commit(db *iavl.MutableTree, version int64) error {
 			db.Set(pathOrderID, pairOrderBytes)
 		}
 
-		lenB := len(pair.buyOrders.ids)
-		pair.loadedBuyOrders.ids = pair.buyOrders.ids[:lenB:lenB]
-		if lenB > 10000 {
-			pair.buyOrders.ids = pair.buyOrders.ids[:10000:10000]
-		}
-		//pair.buyOrders.ids = nil
-
-		lenS := len(pair.sellOrders.ids)
-		pair.loadedSellOrders.ids = pair.sellOrders.ids[:lenS:lenS]
-		if lenS > 10000 {
-			pair.sellOrders.ids = pair.sellOrders.ids[:10000:10000]
-		}
-		//pair.sellOrders.ids = nil
+		// the orders on disk change: drop the sorted lists and the ids loaded from disk
+		pair.sellOrders.ids, pair.buyOrders.ids = nil, nil
+		*pair.loadedSellOrders, *pair.loadedBuyOrders = limits{}, limits{}
 
 		pair.dirtyOrders.mu.Lock()
 		pair.dirtyOrders.list = make(map[uint32]struct{})
@@ -808,6 +798,9 @@ type PairV2 struct {
 	lockOrders *sync.Mutex
 	PairKey
 	*pairData
+	// sellOrders and buyOrders cache the sorted ids of a side (see sellOrdersList), loadedSellOrders and loadedBuyOrders
+	// the ids as read from disk (see loadDiskOrders); unsortedDirty*Orders hold the orders placed or changed and
+	// deleted*Orders the orders closed since the last commit
 	sellOrders              *limits
 	buyOrders               *limits
 	orders                  *orderList
@@ -815,8 +808,8 @@ type PairV2 struct {
 	deletedSellOrders       *orderDirties
 	deletedBuyOrders        *orderDirties
 	markDirtyOrders         func()
-	loadBuyOrders           func(pair *PairV2, fromOrder *Limit, limit int) []uint32
-	loadSellOrders          func(pair *PairV2, fromOrder *Limit, limit int) []uint32
+	loadBuyOrders           func(pair *PairV2, n int) ([]uint32, bool)
+	loadSellOrders          func(pair *PairV2, n int) ([]uint32, bool)
 	loadedSellOrders        *limits
 	loadedBuyOrders         *limits
 	unsortedDirtyBuyOrders  *orderDirties
